@@ -180,7 +180,7 @@ func runProgram(p Program) sl.M {
 			pre := sl.SnapshotMem(n.Raw)
 			o["storevers"] = storeVers(n)
 			ideal := sl.CrashRun(pre, n.Cfg, n.Pending, 0)
-			o["ideal"] = sl.M{"ok": ideal.Completed, "ver": ideal.Ver, "hash": ideal.Hash, "err": ideal.Err, "writes": ideal.Done}
+			o["ideal"] = sl.M{"ok": ideal.Completed, "ver": ideal.Ver, "hash": ideal.Hash, "err": ideal.Err, "panic": ideal.Panic, "writes": ideal.Done}
 			tries := st.Tries
 			if tries <= 0 {
 				tries = 400
@@ -195,12 +195,23 @@ func runProgram(p Program) sl.M {
 					o["tool_error"] = r.Err
 					break
 				}
+				if r.Panic != "" {
+					// the real Commit panics before it gets to the crash point
+					o["panic"] = r.Panic
+					o["done_before_panic"] = r.Done
+					break
+				}
 				seen[fmt.Sprint(r.Done)] = true
 				matched = eqs(r.Done, st.Done)
 			}
 			o["matched"] = matched
 			o["tries"] = t
-			if !matched {
+			if _, p := o["panic"]; p {
+				// the process is gone, what it wrote stays
+				if err := n.ReplaceDurable(r.Durable); err != nil {
+					o["tool_error"] = err.Error()
+				}
+			} else if !matched {
 				keys := []string{}
 				for k := range seen {
 					keys = append(keys, k)
@@ -270,16 +281,17 @@ func record(args []string) int {
 	maxw := fs.Int("maxwrites", 4, "max writes per block")
 	pobs := fs.Float64("pobs", 0.5, "probability of an observation burst after a commit")
 	prestart := fs.Float64("prestart", 0.05, "probability of a clean restart after a commit")
+	spal := fs.Bool("set-pruning-after-load", false, "call SetPruning on the live store after LoadLatestVersion instead of before")
 	pruneAfter := fs.Bool("prune-after-flush", false, "log the pruning steps that wrote nothing after the flush (for code that prunes after the flush)")
 	fs.Parse(args)
 
 	rng := rand.New(rand.NewSource(*seed))
-	cfg := sl.Cfg{Transient: "t1", KR: *kr, KE: *ke, Backend: *backend}
+	cfg := sl.Cfg{Transient: "t1", KR: *kr, KE: *ke, Backend: *backend, SPAL: *spal}
 	for i := 1; i <= *nstores; i++ {
 		cfg.Stores = append(cfg.Stores, fmt.Sprintf("s%d", i))
 	}
 	keys := []string{"a", "ab", "abc", "b", "ba", "c", "k/1", "k/2", "z"}
-	vals := []string{"x", "y", "z", "xx", "0"}
+	vals := []string{"x", "y", "z", "xx", "0", ""} // the stores accept empty (non-nil) values
 	w := bufio.NewWriterSize(os.Stdout, 1<<20)
 	defer w.Flush()
 	enc := json.NewEncoder(w)
@@ -291,7 +303,7 @@ func record(args []string) int {
 		return 2
 	}
 	defer n.Close()
-	emit(sl.M{"a": "reset", "kr": *kr, "ke": *ke, "stores": cfg.Stores, "seed": *seed, "backend": *backend})
+	emit(sl.M{"a": "reset", "kr": *kr, "ke": *ke, "spal": *spal, "stores": cfg.Stores, "seed": *seed, "backend": *backend})
 	open := func() bool {
 		r := n.Reopen()
 		r["a"] = "open"
@@ -393,6 +405,22 @@ func record(args []string) int {
 			default:
 				full = append(full, sl.M{"a": "otherwrite", "class": log[i].Class})
 			}
+		}
+		if !flushed {
+			// Commit returned but no single batch carried commit info + latest marker: the steps
+			// are logged all the same (nops = 0), the writes it did issue are "otherwrite" above
+			for _, st := range cfg.Stores {
+				if !saved[st] {
+					full = append(full, sl.M{"a": "save", "s": st, "v": n.H.MS.GetCommitStore(n.H.Keys[st]).LastCommitID().Version, "tok": storeHash(st), "wrote": false})
+				}
+				if !pruneLogged[st] && !*pruneAfter {
+					full = append(full, sl.M{"a": "prune", "s": st, "v": 0})
+					pruneLogged[st] = true
+				}
+			}
+			full = append(full, sl.M{"a": "tcommit"})
+			st := n.H.State()
+			full = append(full, sl.M{"a": "flush", "ver": id.Version, "hash": hex.EncodeToString(id.Hash), "stores": st["stores"], "trans": st["trans"], "nops": 0})
 		}
 		for _, st := range cfg.Stores {
 			if !pruneLogged[st] {
